@@ -203,7 +203,7 @@ func checkC02(c *Ctx) (string, bool, []string) {
 			}
 		}
 	}
-	for _, re := range []string{`/a\/b/`, `/\//`, `/^\/var\/log\/.*$/`, `//`, `/a|b/`, `/\\\/x/`, `/é/`, `/(?i)x/`} {
+	for _, re := range []string{`/a\/b/`, `/\//`, `/^\/var\/log\/.*$/`, `//`, `/a|b/`, `/\\\/x/`, `/é/`, `/(?i)x/`, `/C:\\\/tmp/`, `/\\\\\/\//`, `/a\\\\/`, `/[\/]+\\\/$/`} {
 		sweeps = append(sweeps, "SELECT v FROM "+re+" WHERE h =~ "+re+" AND g !~ "+re, "SELECT "+re+" FROM m GROUP BY "+re, "SELECT mean("+re+") FROM db.rp."+re, "SHOW TAG VALUES WITH KEY =~ "+re, "SHOW MEASUREMENTS WITH MEASUREMENT =~ "+re)
 	}
 	names := []string{`"my db"`, `"a.b"`, `"q\"t"`, `"b\\s"`, `"nl\nx"`, `"1st"`, `"é"`, `"select"`, `"SELECT"`, `"Time"`, `"x'y"`, `"with space "`, `"true"`, `"and"`, `"inf"`, `"*"`}
